@@ -102,6 +102,22 @@ def executor_scenarios(rep):
         ("self-dependency", [blk("a", L("a"), ["a"])], lambda r: r[0] == "raised" and "ValueError" in r[1]),
         ("chain-reversed-input", [blk("c", L("c"), ["b"]), blk("b", L("b"), ["a"]), blk("a", L("a"), [])], lambda r: r == ("ok", L("a") + L("b") + L("c"))),
     ]
+    # a block sent several times with identical script and DIFFERENT dependency lists, through the real metadata path, in every
+    # order of arrival: the dependencies of every occurrence count (union), and the error classes stay errors
+    import itertools
+    union_blocks = [blk("calib", L("calib"), ["sys"]), blk("sys", L("sys"), []), blk("pile", L("pile"), []), blk("calib", L("calib"), ["pile"]), blk("calib", L("calib"), [])]
+
+    def union_ok(r):
+        return r[0] == "ok" and sorted(r[1]) == sorted(L("calib") + L("sys") + L("pile")) and r[1].index("calib_line1") > max(r[1].index("sys_line2"), r[1].index("pile_line2")) \
+            and all(r[1][r[1].index(n + "_line1") + 1] == n + "_line2" for n in ("calib", "sys", "pile"))
+    perms = list(itertools.permutations(range(len(union_blocks))))
+    for k, perm in enumerate(perms[::5]):
+        cases.append((f"union-order-{''.join(map(str, perm))}", [union_blocks[i] for i in perm], union_ok))
+    for k, order in enumerate(([0, 1], [1, 0])):
+        two = [blk("a", L("a"), []), blk("a", L("a"), ["never_sent"])]
+        cases.append((f"repeat-with-missing-dep-{k}", [two[i] for i in order], lambda r: r[0] == "raised" and "ValueError" in r[1]))
+        cyc = [blk("a", L("a"), []), blk("b", L("b"), ["a"]), blk("a", L("a"), ["b"])]
+        cases.append((f"repeat-closing-cycle-{k}", cyc if k == 0 else cyc[::-1], lambda r: r[0] == "raised" and "ValueError" in r[1]))
     for name, mds, ok in cases:
         rep.obligations += 1
         r = run(mds)
